@@ -72,7 +72,9 @@ Init ==
 
 StdoutFull == fault.p = "stdoutfull"
 Out(what) == stdout' = IF StdoutFull THEN stdout ELSE Append(stdout, [f |-> cur, what |-> what])
-Log(what) == IF flags.verbose THEN Out(what) ELSE UNCHANGED stdout
+\* -v: one line per file ("<file>: patched|skipped|failed: ...") on standard error (log := log.New(cmd.Stderr, ...))
+LogRec == IF flags.verbose THEN <<[f |-> cur, what |-> "log"]>> ELSE <<>>
+Log(what) == stderr' = stderr \o LogRec
 Err(what) == errs' = Append(errs, [f |-> cur, what |-> what])
 NextFile  == cur' = cur + 1 /\ stage' = IF cur = N THEN "finish" ELSE "read"
 
@@ -115,14 +117,14 @@ Generated ==
   /\ stage = "generated"
   /\ IF flags.skipGenerated /\ kinds[cur] = "generated"
      THEN Log("log") /\ NextFile
-     ELSE stage' = "apply" /\ UNCHANGED <<cur, stdout>>
-  /\ UNCHANGED <<kinds, flags, fault, disk, stderr, errs, rerrs, touched, nwrites, exit>>
+     ELSE stage' = "apply" /\ UNCHANGED <<cur, stderr>>
+  /\ UNCHANGED <<kinds, flags, fault, disk, stdout, errs, rerrs, touched, nwrites, exit>>
 
 \* patchRunner.Apply; if !ok { echo original in print mode; log; continue }
 Apply ==
   /\ stage = "apply"
   /\ IF kinds[cur] \in {"match", "generated", "badresult"}
-     THEN /\ stage' = "format" /\ UNCHANGED <<cur, stdout, rerrs, errs>>
+     THEN /\ stage' = "format" /\ UNCHANGED <<cur, stdout, stderr, rerrs, errs>>
      ELSE /\ rerrs' = IF kinds[cur] = "replaceerr" THEN Append(rerrs, [f |-> cur, what |-> "replace"]) ELSE rerrs
           \* (echoing the file fails when standard output cannot be written to: the error is collected like
           \*  every other per-file error and the run goes on)
@@ -130,10 +132,10 @@ Apply ==
              THEN /\ stdout' = stdout
                   /\ errs' = IF flags.print THEN Append(errs, [f |-> cur, what |-> "stdout"]) ELSE errs
              ELSE /\ stdout' = (IF flags.print THEN Append(stdout, [f |-> cur, what |-> "orig"]) ELSE stdout)
-                                \o (IF flags.verbose THEN <<[f |-> cur, what |-> "log"]>> ELSE <<>>)
                   /\ errs' = errs
+          /\ Log("log")
           /\ NextFile
-  /\ UNCHANGED <<kinds, flags, fault, disk, stderr, touched, nwrites, exit>>
+  /\ UNCHANGED <<kinds, flags, fault, disk, touched, nwrites, exit>>
 
 \* format.Node never fails on these kinds; the result is re-parsed by
 \* imports.Process or, with --skip-import-processing, by go/parser
@@ -149,22 +151,20 @@ Bad == kinds[cur] = "badresult"
 \* switch { case opts.Diff: preview; case opts.Print: print; default: WriteFile }
 EmitDiff ==
   /\ stage = "emit" /\ flags.diff
-  /\ stderr' = Append(stderr, [f |-> cur, what |-> "desc"])
+  /\ stderr' = Append(stderr, [f |-> cur, what |-> "desc"]) \o LogRec
   /\ IF StdoutFull
      THEN stdout' = stdout /\ errs' = Append(errs, [f |-> cur, what |-> "stdout"])
      ELSE /\ stdout' = Append(stdout, [f |-> cur, what |-> IF Bad THEN "baddiff" ELSE "diff"])
-                        \o (IF flags.verbose THEN <<[f |-> cur, what |-> "log"]>> ELSE <<>>)
           /\ errs' = errs
   /\ NextFile
   /\ UNCHANGED <<kinds, flags, fault, disk, rerrs, touched, nwrites, exit>>
 
 EmitPrint ==
   /\ stage = "emit" /\ ~flags.diff /\ flags.print
-  /\ stderr' = Append(stderr, [f |-> cur, what |-> "desc"])
+  /\ stderr' = Append(stderr, [f |-> cur, what |-> "desc"]) \o LogRec
   /\ IF StdoutFull
      THEN stdout' = stdout /\ errs' = Append(errs, [f |-> cur, what |-> "stdout"])
      ELSE /\ stdout' = Append(stdout, [f |-> cur, what |-> IF Bad THEN "badpatched" ELSE "patched"])
-                        \o (IF flags.verbose THEN <<[f |-> cur, what |-> "log"]>> ELSE <<>>)
           /\ errs' = errs
   /\ NextFile
   /\ UNCHANGED <<kinds, flags, fault, disk, rerrs, touched, nwrites, exit>>
@@ -172,15 +172,15 @@ EmitPrint ==
 \* writeFileAtomic = CreateTemp; write; chmod; close; rename(tmp, target)
 \* A kill leaves the target as it was (and possibly a stray temporary file,
 \* which is not a Go file); an error removes the temporary file.
-Kill == stage' = "killed" /\ exit' = 137 /\ UNCHANGED <<cur, stdout, errs>>
+Kill == stage' = "killed" /\ exit' = 137 /\ UNCHANGED <<cur, stderr, errs>>
 
 WriteTemp ==
   /\ stage = "emit" /\ ~flags.diff /\ ~flags.print
   /\ nwrites' = nwrites + 1
   /\ IF fault.p \in {"fsize", "rodir", "rodir_fsize"}   \* the limit / the directory stays as it is: every in-place write fails
      THEN Err("write") /\ Log("log") /\ NextFile
-     ELSE stage' = "rename" /\ UNCHANGED <<cur, stdout, errs>>
-  /\ UNCHANGED <<kinds, flags, fault, disk, stderr, rerrs, touched, exit>>
+     ELSE stage' = "rename" /\ UNCHANGED <<cur, stderr, errs>>
+  /\ UNCHANGED <<kinds, flags, fault, disk, stdout, rerrs, touched, exit>>
 
 WriteRename ==
   /\ stage = "rename"
@@ -189,7 +189,7 @@ WriteRename ==
      ELSE /\ disk' = [disk EXCEPT ![cur] = IF Bad THEN "badpatched" ELSE "patched"]
           /\ touched' = touched \cup {cur}
           /\ Log("log") /\ NextFile /\ UNCHANGED <<errs, exit>>
-  /\ UNCHANGED <<kinds, flags, fault, stderr, rerrs, nwrites>>
+  /\ UNCHANGED <<kinds, flags, fault, stdout, rerrs, nwrites>>
 
 \* errors = append(errors, patchRunner.errors...); runMain prints them, exit 1
 Finish ==
@@ -208,7 +208,7 @@ Ended == stage \in {"done", "killed"}
 ReadFails(i) == fault.f = i /\ fault.p = "read"
 Unmatched(i) == ~ReadFails(i) /\ (kinds[i] = "nomatch" \/ (kinds[i] = "generated" /\ flags.skipGenerated))
 StdoutOf(i) == SelectSeq(stdout, LAMBDA r : r.f = i /\ r.what # "log")
-StderrOf(i) == SelectSeq(stderr, LAMBDA r : r.f = i)
+StderrOf(i) == SelectSeq(stderr, LAMBDA r : r.f = i /\ r.what # "log")      \* (what is said about file i, the -v lines aside)
 \* the run ended before any file was looked at
 Aborted == fault.p \in {"missing", "badpatch"}
 Processed(i) == ~Aborted /\ (i < cur \/ stage \in {"finish", "done"})
@@ -227,6 +227,9 @@ C06_ExitZero ==
 \* C07: whatever is emitted parses
 C07_EmittedParses ==
   /\ \A i \in 1..N : disk[i] # "badpatched"
+  \* a file that a run reporting success left empty or cut short ("partial": a proper prefix of its new text) was
+  \* emitted, and is not a Go source file
+  /\ (Ended /\ exit = 0) => \A i \in 1..N : disk[i] \notin {"empty", "partial"}
   /\ \A k \in 1..Len(stdout) : stdout[k].what \notin {"badpatched", "baddiff"}
 \* whatever is on stdout is, piece by piece, something the run is supposed to emit: a file's
 \* original or patched bytes, a complete diff, a log line (the observation marks anything
@@ -238,6 +241,9 @@ C07_BadResultReported ==
 
 \* C12: dry runs never write
 C12_DryRunNeverWrites == (flags.diff \/ flags.print) => touched = {} /\ \A i \in 1..N : disk[i] = "orig"
+\* standard output carries what the dry modes emit for the files and nothing else: with -v as without it, its bytes
+\* are the files' texts (--print-only) or their diffs (--diff)
+C12_StdoutIsOutputOnly == \A k \in 1..Len(stdout) : stdout[k].what # "log"
 C12_DescriptionsOnStderrOnly ==
   /\ \A k \in 1..Len(stderr) : stderr[k].what = "desc" => kinds[stderr[k].f] \in {"match", "generated", "badresult"}
   \* ("wrongdesc": the description of a change that does not apply to the file it is printed for)
